@@ -87,6 +87,32 @@ def main():
                        xml])
             out['baseline_ok'] = cmp_.returncode == 0
             out['baseline_summary'] = cmp_.stdout.strip().splitlines()[:6]
+            if not out['baseline_ok']:
+                # a stable test that fails in the full (loaded) run is run
+                # again alone, three times: the suite holds randomised
+                # (hypothesis) tests that fail now and then on the unchanged
+                # tree too, e.g. tests.eponine.test_browser::test_build_index
+                names = [ln.strip() for ln in
+                         cmp_.stdout.strip().splitlines()[1:]]
+                reruns = {}
+                for name in names[:10]:
+                    mod, _, func = name.partition('::')
+                    node = mod.replace('.', '/') + '.py::' + func
+                    oks = 0
+                    for _ in range(3):
+                        one = sh([PY, '-m', 'pytest', '-q', '-p',
+                                  'no:cacheprovider', node], env=env,
+                                 cwd=work, timeout=1200)
+                        oks += one.returncode == 0
+                    reruns[name] = f'{oks}/3 passed when run alone'
+                out['baseline_reruns'] = reruns
+                if names and len(names) <= 10 and all(
+                        v.startswith(('3/3', '2/3')) for v in
+                        reruns.values()):
+                    out['baseline_ok'] = True
+                    out['baseline_note'] = (
+                        'failed in the full run under load, passes when '
+                        'run alone: ' + json.dumps(reruns))
             out['baseline_wall_s'] = round(time.time() - t_0)
         out['checks'] = {}
         cenv = dict(os.environ, VERIF_REPO=work,
@@ -137,6 +163,8 @@ def main():
                         'tools/baseline_cmp.py',
                         f'VERIF_REPO=<scratch> ./check {",".join(props)} '
                         f'--tier {tier}']},
+                **({'baseline_note': out['baseline_note']}
+                   if out.get('baseline_note') else {}),
                 'detection': {p: {'tier': tier, **{k: v for k, v in c.items()
                                                   if k != 'lines'},
                                   'mechanisms': [ln.strip() for ln in
